@@ -3,6 +3,8 @@
 (* of (upper-cased) mnemonics the real assembler logged for them (`stmt` hook): TLC confirms the wrap's     *)
 (* precondition on each - balanced for the body collector and for IF / STRUCT / SECTION pairs - and that    *)
 (* the collector ends the wrapper's body at the wrapper's ENDM.  [a |-> "WRAP", ops] / [a |-> "RESET"]      *)
+(* [a |-> "WRAPLOCAL", ops, run]: a whole main file wrapped into a plain macro (labels local to the wrapper):    *)
+(* additionally no SECTION among the statement names `run` executed anywhere in the run (LocalWrappable).       *)
 EXTENDS BodyCollect, TLC, Json, IOUtils
 VARIABLES l
 TraceLog == ndJsonDeserialize(IOEnv.TRACE)
@@ -11,6 +13,7 @@ TNext == /\ l <= Len(TraceLog)
          /\ LET e == TraceLog[l] IN
               CASE e.a = "RESET" -> TRUE
                 [] e.a = "WRAP"  -> Wrappable(e.ops) /\ WrapperCollectsExactly(e.ops)
+                [] e.a = "WRAPLOCAL" -> LocalWrappable(e.ops, {e.run[i] : i \in 1..Len(e.run)}) /\ WrapperCollectsExactly(e.ops)
                 [] OTHER -> FALSE
          /\ l' = l + 1
 Accepted == TLCGet("stats").diameter - 1 = Len(TraceLog)
